@@ -91,6 +91,19 @@ Theorem C08_checkpoint_partial : forall fixv, fix_ok fixv -> forall t c t1 evs l
 Proof. exact checkpoint_restart. Qed.
 Print Assumptions C08_checkpoint_partial.
 
+(* ... composed: under the two guards the image resumes, after at most one recovery per remaining cause,
+   to the uninterrupted end of the ORIGINAL graph, and the first resumed run calls no leaf that held a key
+   in the image -- exactly those that held none, when it returns. *)
+Theorem C08_checkpoint_resume_partial : forall fixv, fix_ok fixv -> forall t c t1 evs l,
+  Start fixv t -> attempt (Some c) t = (t1, evs, RCut) -> load_file t1 = Some l ->
+  let t2 := clear_running (recover fixv l) in
+  exists t' U evU, final fixv (S (nbad t)) t2 = Some t' /\ attempt None (fixall fixv t) = (U, evU, ROk) /\
+    outputs t' = outputs U /\
+    forall t3 ev2 r2, attempt None t2 = (t3, ev2, r2) ->
+      (forall q, In q (calls ev2) -> ~ In q (done_leaves t1)) /\ (r2 = ROk -> calls ev2 = undone_leaves t1).
+Proof. exact checkpoint_resume. Qed.
+Print Assumptions C08_checkpoint_resume_partial.
+
 (* The property as stated is FALSE of the faithful model (and of the code), for EVERY graph and every
    checkpointing node other than the root: the image marks the root running, and with the protocol the
    statement gives (remove the cause, clear the failure flags, run) the root refuses: ReadinessError,
